@@ -65,6 +65,25 @@ Record num := mkNum {
   nfloor : T -> res Z           (* math.floor: int result; raises on inf / nan *)
 }.
 
+(* int -> float where an unbounded Python int (math.comb, math.factorial) meets a
+   float: CPython raises OverflowError ("int too large to convert to float") when
+   the correctly rounded value is beyond the double range.  [ofZ] of such an
+   integer is the infinity in the float instance; over the reals nothing is. *)
+Definition ofZc (N : num) (z : Z) : res (T N) :=
+  if isinf N (ofZ N z) then Err (Raise EOverflow) else Val (ofZ N z).
+
+(* try: <r>  except <e>: <h> *)
+Definition exn_same (a b : exn) : bool :=
+  match a, b with
+  | EValue, EValue | EZeroDiv, EZeroDiv | EOverflow, EOverflow | EType, EType => true
+  | _, _ => false
+  end.
+Definition on_exn {A} (e : exn) (r h : res A) : res A :=
+  match r with
+  | Err (Raise e') => if exn_same e e' then h else r
+  | _ => r
+  end.
+
 (* value returned by draw(): Python float or Python int *)
 Inductive value (X : Type) := VF (x : X) | VI (z : Z).
 Arguments VF {X} x.
